@@ -80,18 +80,32 @@ static __always_inline int token_bucket_check(struct token_bucket *tb, __u32 pkt
 	/* Calculate elapsed time since last update */
 	elapsed_ns = now - tb->last_update;
 
-	/* Calculate new tokens to add (rate_bps / 8 = bytes per second) */
-	/* tokens = elapsed_ns * (rate_bps / 8) / 1e9 */
-	/* Simplified: tokens = elapsed_ns * rate_bps / 8e9 */
-	new_tokens = (elapsed_ns * (tb->rate_bps / 8)) / 1000000000ULL;
+	/* rate_bps / 8 = bytes per second */
+	__u64 rate_Bps = tb->rate_bps / 8;
 
-	/* Add tokens, capped at burst size */
-	tb->tokens += new_tokens;
-	if (tb->tokens > tb->burst_bytes)
-		tb->tokens = tb->burst_bytes;
+	if (rate_Bps > 0) {
+		/* Time that fills an empty bucket. Beyond it the bucket is simply
+		 * full; this also keeps elapsed_ns * rate_Bps below 64 bits
+		 * (burst_bytes is 32 bits, so burst * 1e9 < 2^62). */
+		__u64 fill_ns = ((__u64)tb->burst_bytes * 1000000000ULL) / rate_Bps + 1;
 
-	/* Update timestamp */
-	tb->last_update = now;
+		if (elapsed_ns >= fill_ns) {
+			tb->tokens = tb->burst_bytes;
+			tb->last_update = now;
+		} else {
+			/* tokens = elapsed_ns * rate_Bps / 1e9, whole bytes only */
+			new_tokens = (elapsed_ns * rate_Bps) / 1000000000ULL;
+			if (new_tokens > 0) {
+				tb->tokens += new_tokens;
+				if (tb->tokens > tb->burst_bytes)
+					tb->tokens = tb->burst_bytes;
+				/* Advance the timestamp only by the time these whole
+				 * tokens stand for, so the fraction of a byte accrued
+				 * since then is not thrown away with every packet */
+				tb->last_update += (new_tokens * 1000000000ULL + rate_Bps - 1) / rate_Bps;
+			}
+		}
+	}
 
 	/* Check if we have enough tokens for this packet */
 	tokens_needed = pkt_len;
